@@ -1194,3 +1194,89 @@ def guard_ctor_rules(F, R):
         for fld in ("buffer",):
             v = F.adt_field(adt, fld)["vis"]
             R.ob("G6.guard-field-vis", mod, fld, "Public" not in v, "RecvGuard.%s is not public (%s)" % (fld, v), nontrivial=False)
+
+
+def ctor_rules(F, R, variant):
+    """A1-A3: the receive/send buffer starts at an address aligned for the message type and is large enough for one message.
+
+    Every message view is `from_bytes(&buffer[window.start..])`; window.start is 0 after a reset/compaction and otherwise advances by
+    size() (multiple of ALIGN: F2.*), so the alignment of every view reduces to the alignment of the allocation itself."""
+    from e5_formulas import canon
+    import re as _re
+    inner = r"(\$max_msg_len|core::cmp::Ord::max\((\$max_msg_len, [^()]+|[^()]+, \$max_msg_len)\))"
+    cap_re = _re.compile(r"^(Mul\((\d+), )?%s\)?$" % inner)   # k * max_msg_len or k * max(max_msg_len, c), k >= 1
+    n = 0
+    pre = "blocking" if variant == "blocking" else "async_"
+    for mod, ty in ((pre + "::recv", "Receiver"), (pre + "::send", "Sender")):
+        bj = F.one(krate="flatty_io", def_re=r"^flatty_io::%s::%s::<M, flatty_io::common::io::IoBuffer<P>>::io$" % (mod, ty))
+        body = Body(bj)
+        R.count("functions_analysed")
+        calls = find_calls(body, IOBUF + "::<P>::new")
+        label = "%s::%s::io" % (mod, ty)
+        if len(calls) != 1:
+            R.ob("A1.ctor-align", label, "IoBuffer::new", False, "expected exactly one IoBuffer::new call, found %d" % len(calls), where=bj["span"])
+            continue
+        bb, t = calls[0]
+        e = body.expr_of_call(t, 0, bb)
+        args = [canon(a) for a in e[3]]
+        R.ob("A1.ctor-align", label, "align-arg", len(args) == 3 and args[2] == "<M as FlatBase>::ALIGN",
+             "the buffer is allocated with the alignment of the message type (align argument = %s)" % (args[2] if len(args) == 3 else args), where=bj["span"])
+        m = cap_re.match(args[1]) if len(args) == 3 else None
+        R.ob("A1.ctor-capacity", label, "capacity-arg", bool(m) and (m.group(2) is None or int(m.group(2)) >= 1),
+             "the buffer holds at least max_msg_len bytes (capacity argument = %s)" % (args[1] if len(args) == 3 else args), where=bj["span"])
+        n += 1
+    # forwarding chain
+    for dre, callee, label in ((r"^flatty_io::common::io::IoBuffer::<P>::new$", BUFFER + "::new", "IoBuffer::new"),
+                               (r"^flatty_io::common::io::Buffer::new$", "flatty_containers::bytes::AlignedBytes::new", "Buffer::new")):
+        bj = F.one(krate="flatty_io", def_re=dre)
+        body = Body(bj)
+        R.count("functions_analysed")
+        calls = find_calls(body, callee)
+        ok = len(calls) == 1
+        got = None
+        if ok:
+            e = body.expr_of_call(calls[0][1], 0, calls[0][0])
+            got = [canon(a) for a in e[3]]
+            ok = got == ["$capacity", "$align"]
+        R.ob("A2.ctor-forward", label, callee.split("::")[-2] + "::new", ok, "%s forwards (capacity, align) unchanged (got %s)" % (label, got), where=bj["span"])
+        n += 1
+        if label == "Buffer::new":
+            rets = [canon(body.expr_of_rvalue(s["r"])) for b_, i, s in body.assigns() if s["l"]["v"] == 0 and not s["l"]["p"]]
+            R.ob("A2.ctor-window", label, "window", len(rets) == 1 and rets[0].endswith(", Range{0, 0}}"),
+                 "a new buffer starts with the empty window 0..0 (%s)" % [r[-40:] for r in rets], where=bj["span"])
+    # the allocation
+    bj = F.one(krate="flatty_containers", def_re=r"^flatty_containers::bytes::AlignedBytes::new$")
+    body = Body(bj)
+    R.count("functions_analysed")
+    rets = [canon(body.expr_of_rvalue(s["r"])) for b_, i, s in body.assigns() if s["l"]["v"] == 0 and not s["l"]["p"]]
+    lay = "core::result::Result::<T, E>::unwrap(core::alloc::layout::Layout::from_size_align($size, $align))"
+    exp = "AlignedBytes{alloc::alloc::alloc(%s), %s}" % (lay, lay)
+    exp2 = "AlignedBytes{alloc::alloc::alloc_zeroed(%s), %s}" % (lay, lay)
+    R.ob("A3.alloc-layout", "AlignedBytes::new", "alloc", len(rets) == 1 and rets[0] in (exp, exp2),
+         "AlignedBytes::new allocates Layout::from_size_align(size, align) and records that layout (%s)" % [r[:200] for r in rets], where=bj["span"])
+    for meth, raw in (("as_ref", "from_raw_parts"), ("as_mut", "from_raw_parts_mut")):
+        bj = F.one(krate="flatty_containers", def_re=r"^<flatty_containers::bytes::AlignedBytes as core::convert::As(Ref|Mut)<\[u8\]>>::%s$" % meth)
+        body = Body(bj)
+        R.count("functions_analysed")
+        calls = find_calls(body, raw)
+        got = None
+        if len(calls) == 1:
+            e = body.expr_of_call(calls[0][1], 0, calls[0][0])
+            got = [canon(a) for a in e[3]]
+        R.ob("A3.alloc-view", "AlignedBytes::" + meth, raw, got is not None and len(got) == 2 and _re.fullmatch(r"\$self\.0", got[0]) is not None
+             and _re.fullmatch(r"core::alloc::layout::Layout::size\(\$self\.1\)", got[1]) is not None,
+             "the byte view of the allocation is (data, layout.size()) (got %s)" % got, where=bj["span"])
+    # who may build an AlignedBytes
+    sites = set()
+    for b2 in F.poly(krate="flatty_containers"):
+        bd = Body(b2)
+        for bb, i, s in bd.assigns():
+            r = s["r"]
+            if "agg" in r and isinstance(r["agg"], dict) and r["agg"].get("adt") == "flatty_containers::bytes::AlignedBytes":
+                sites.add(b2["def"])
+    R.ob("A3.alloc-ctor", "AlignedBytes", "aggregate-sites", sites == {"flatty_containers::bytes::AlignedBytes::new"},
+         "AlignedBytes values are built only in AlignedBytes::new (found %s)" % sorted(sites))
+    for fld in ("data", "layout"):
+        v = F.adt_field("flatty_containers::bytes::AlignedBytes", fld)["vis"]
+        R.ob("A3.alloc-field-vis", "AlignedBytes", fld, "Public" not in v, "AlignedBytes.%s is not public (%s)" % (fld, v), nontrivial=False)
+    R.floor("A", "buffer constructors analysed", n, 4)
